@@ -26,7 +26,7 @@ theorem ite_some_none (c : Prop) [Decidable c] (b : Nat) :
   by_cases h : c <;> simp [h]
 
 theorem guess_cases (r : Freq) (b : Nat) (tol : Nat × Nat) :
-    guessFrequency r b tol = none ∨ guessFrequency r b tol = some b := by
+    guessFrequency r b tol = none ∨ guessFrequency r b tol = some (b * multOf r.num r.den b) := by
   unfold guessFrequency
   by_cases h1 : r.num = 0 ∨ b = 0
   · simp [h1]
@@ -37,7 +37,7 @@ theorem guess_cases (r : Freq) (b : Nat) (tol : Nat × Nat) :
       exact ite_some_none _ _
 
 theorem guess_iff (n d b : Nat) (hd : 0 < d) (hb : 0 < b) :
-    guessFrequency ⟨n, d⟩ b (1, 10) = some b ↔ Snap b n d (b * multOf n d b) := by
+    guessFrequency ⟨n, d⟩ b (1, 10) = some (b * multOf n d b) ↔ Snap b n d (b * multOf n d b) := by
   obtain ⟨h1, h2⟩ := mult_bounds n d b hd hb
   have hE : 0 < d * b := Nat.mul_pos hd hb
   have eM : b * multOf n d b * d = b * d * multOf n d b := by ac_rfl
